@@ -34,7 +34,7 @@ mut = ""
 mf = os.path.join(ROOT, "mutants", "RESULTS.md")
 if os.path.exists(mf):
     mut = "\n".join(l for l in open(mf).read().splitlines() if l.startswith("|"))
-block = "<!-- DETECTION-TABLE-BEGIN -->\n**Own mutants** (`mutants/`, quick tier):\n\n" + mut + "\n\n**Seeded changes from sub-agents** (`seeded/`, quick tier; `_2` .. `_6` = later rounds in which the agent was told what earlier rounds had done and asked for something different):\n\n" + seeded + "\n<!-- DETECTION-TABLE-END -->"
+block = "<!-- DETECTION-TABLE-BEGIN -->\n**Own mutants** (`mutants/`, quick tier):\n\n" + mut + "\n\n**Seeded changes from sub-agents** (`seeded/`, quick tier; `_2` .. `_7` = later rounds in which the agent was told what earlier rounds had done and asked for something different):\n\n" + seeded + "\n<!-- DETECTION-TABLE-END -->"
 p = os.path.join(ROOT, "DESIGN.md")
 s = open(p).read()
 if "<!-- DETECTION-TABLE-BEGIN -->" in s:
